@@ -215,7 +215,8 @@ def _scan_resettable():
 def require_seams(*names):
     """Harness error unless each named seam was found somewhere in eliot."""
     found = _installed.get("_found", {})
-    missing = [n for n in names if n not in found]
+    # a name may be given as alternatives "a|b": the function itself or the module it is reached through
+    missing = [n for n in names if not any(x in found for x in n.split("|"))]
     if missing:
         raise HarnessError("seam(s) not found in eliot: %s (found: %s)" % (
             missing, sorted(found)))
